@@ -5,8 +5,9 @@ Three parts (see DESIGN.md §3 "Generated tables" (a) and §6 C14):
      emits `site_table` as a Coq file and the finite-domain obligation `forallb site_ok site_table = true`
      is re-checked by vm_compute (Props/C14.v turns it into "every site displays the true location");
   2. the behavioural oracle: every diagnosable construct kind on every line position of several valid host
-     stories (single file, included file, after included content, nested include); the file and the line are
-     parsed out of the message and compared with where the construct was put;
+     stories (single file, included file, after included content, nested include, entry file and included files
+     that BEGIN with an @include nested 1-3 levels so that line 0 of the combined text is an included file's); the
+     file and the line are parsed out of the message and compared with where the construct was put;
   3. the correspondence of Compiler/Diag.v with the real `format_error` on random inputs.
 """
 from __future__ import annotations
